@@ -17,6 +17,8 @@ from ..gen import mentioned_keys, spec_hash
 from ..outcome import canon, err_outcome, observe, same, short
 from ..ref import Ref, kinds_of
 from ..tap import Tap
+from ..findings import classify_fallback
+from ..verdict import Ctx
 
 PROPERTY = "C01"
 LEVEL = "exploration"
@@ -36,6 +38,9 @@ ASSUMPTIONS = [
 FLOORS = {"hits_compared": (400, 8000), "steps": (1500, 30000), "histories_with_hit_and_change": (80, 1500)}
 COVER = {"kinds_under_cache_with_hits": ["opt", "switch", "case", "coalesce", "bind", "map", "tmpl", "with", "apply", "list", "ds"]}
 SHARDS_QUICK = 4
+# domains only in the directed families: an out-of-domain value inside a bind/case dispatch of a skipped
+# alternative is the recorded finding 'fallback-unexplainable-present-key' (see DESIGN.md)
+FEATURES = {"domains": False}
 
 
 def same_outcome(a, b):
@@ -51,7 +56,24 @@ def run_history(ctx, program, history, tag="random"):
     hits = []
     stale = []
 
+    flags = {"explain_raised": False}
+
+    def report(monitor, msg, W):
+        """Attribute to the recorded fall-back finding only if an explain() raised while a fingerprint was
+        computed in this history AND the violation disappears under the conservative neutralisation."""
+        if flags["explain_raised"] and not getattr(ctx, "scratch", False):
+            def rerun():
+                sc = Ctx(ctx.prop, ctx.tier, ctx.seed)
+                sc.scratch = True
+                run_history(sc, program, history, tag)
+                return len(sc.violations)
+
+            W = {**W, "mechanism": classify_fallback(rerun)}
+        ctx.violation(monitor, msg, W)
+
     def on_event(phase, kind, request, stack, result):
+        if kind == "explain" and phase == "raise":
+            flags["explain_raised"] = True
         if kind != "cache_get" or phase != "return":
             return
         tap.paused += 1
@@ -88,7 +110,7 @@ def run_history(ctx, program, history, tag="random"):
         witness = {"program": program, "history": history[: step + 1], "step": step, "source": tag}
         if stale:
             node, opts, got, fresh = stale[0]
-            ctx.violation(
+            report(
                 "stale-hit",
                 f"cache hit for {node} under {short(opts)} returned {short(got)} but uncached evaluation gives {short(fresh)}",
                 {**witness, "node": node, "hit_options": opts, "real": repr(got), "ref": repr(fresh)},
@@ -99,14 +121,14 @@ def run_history(ctx, program, history, tag="random"):
             # different missing key / failure may be named first - not a difference in outcome
             ctx.count("failure_detail_differs_tolerated")
         if not same_outcome(warm, uncached):
-            ctx.violation(
+            report(
                 "warm-vs-uncached",
                 f"step {step}: warm instance {short(warm)} but caching switched off gives {short(uncached)}",
                 {**witness, "real": repr(warm), "ref": repr(uncached)},
             )
             return
         if not same_outcome(cold, uncached):
-            ctx.violation(
+            report(
                 "cold-vs-uncached",
                 f"step {step}: fresh instance {short(cold)} but caching switched off gives {short(uncached)}",
                 {**witness, "real": repr(cold), "ref": repr(uncached)},
@@ -141,15 +163,17 @@ def run(ctx):
         run_history(ctx, p, dicts + dicts[::-1], tag=f"directed:{name}")
         keys = sorted(mentioned_keys(p)) or None
         for _ in range(6 if ctx.quick else 30):
-            run_history(ctx, p, U.history(rng, 8, keys), tag=f"directed:{name}")
+            run_history(ctx, p, U.history(rng, 8, keys, closed_only=True), tag=f"directed:{name}")
     n = ctx.n(500, 16000)
     depth = 3 if ctx.quick else 4
     length = 6 if ctx.quick else 10
     for i in range(n):
         r = case_rng(ctx, i)
-        program = program_for(r, r.choice([1, 2, 3, depth]), n_datasets=r.choice([1, 2, 3, 4]))
+        program = program_for(r, r.choice([1, 2, 3, depth]), features=FEATURES, n_datasets=r.choice([1, 2, 3, 4]))
         keys = sorted(mentioned_keys(program)) or None
-        run_history(ctx, program, U.history(r, length, keys))
+        # AllOptions exposes the dictionary itself (incl. its key order) as a value: no permutations then
+        star = "*" in Ref(program).may_read(program["root"]) or any("*" in Ref(program).may_read({"k": "ds", "id": d}) for d in program["datasets"])
+        run_history(ctx, program, U.history(r, length, keys, permute=not star, closed_only=True))
 
 
 def replay(ctx, rep):
